@@ -1500,6 +1500,12 @@ impl<'de> de::SeqAccess<'de> for PrimitiveVecAccess<'de> {
         T: de::DeserializeSeed<'de>,
     {
         use serde::de::IntoDeserializer;
+        macro_rules! elem {
+            ($v:expr) => {
+                seed.deserialize(PrimitiveElem($v.into_deserializer()))
+                    .map(Some)
+            };
+        }
         #[cfg(feature = "verif_hooks")]
         crate::verif::step();
         if self.remaining == 0 {
@@ -1511,51 +1517,83 @@ impl<'de> de::SeqAccess<'de> for PrimitiveVecAccess<'de> {
 
         match self.prim {
             PrimitiveType::Bool => match bytes[0] {
-                0 => seed.deserialize(false.into_deserializer()).map(Some),
-                1 => seed.deserialize(true.into_deserializer()).map(Some),
+                0 => elem!(false),
+                1 => elem!(true),
                 _ => Err(Error::msg("Expect 00 or 01")),
             },
-            PrimitiveType::Nat8 => seed.deserialize(bytes[0].into_deserializer()).map(Some),
-            PrimitiveType::Int8 => seed
-                .deserialize((bytes[0] as i8).into_deserializer())
-                .map(Some),
+            PrimitiveType::Nat8 => elem!(bytes[0]),
+            PrimitiveType::Int8 => elem!(bytes[0] as i8),
             PrimitiveType::Nat16 => {
                 let v = u16::from_le_bytes(bytes.try_into().unwrap());
-                seed.deserialize(v.into_deserializer()).map(Some)
+                elem!(v)
             }
             PrimitiveType::Int16 => {
                 let v = i16::from_le_bytes(bytes.try_into().unwrap());
-                seed.deserialize(v.into_deserializer()).map(Some)
+                elem!(v)
             }
             PrimitiveType::Nat32 => {
                 let v = u32::from_le_bytes(bytes.try_into().unwrap());
-                seed.deserialize(v.into_deserializer()).map(Some)
+                elem!(v)
             }
             PrimitiveType::Int32 => {
                 let v = i32::from_le_bytes(bytes.try_into().unwrap());
-                seed.deserialize(v.into_deserializer()).map(Some)
+                elem!(v)
             }
             PrimitiveType::Float32 => {
                 let v = f32::from_le_bytes(bytes.try_into().unwrap());
-                seed.deserialize(v.into_deserializer()).map(Some)
+                elem!(v)
             }
             PrimitiveType::Nat64 => {
                 let v = u64::from_le_bytes(bytes.try_into().unwrap());
-                seed.deserialize(v.into_deserializer()).map(Some)
+                elem!(v)
             }
             PrimitiveType::Int64 => {
                 let v = i64::from_le_bytes(bytes.try_into().unwrap());
-                seed.deserialize(v.into_deserializer()).map(Some)
+                elem!(v)
             }
             PrimitiveType::Float64 => {
                 let v = f64::from_le_bytes(bytes.try_into().unwrap());
-                seed.deserialize(v.into_deserializer()).map(Some)
+                elem!(v)
             }
         }
     }
 
     fn size_hint(&self) -> Option<usize> {
         Some(self.remaining)
+    }
+}
+
+/// Element deserializer of the primitive-vector fast path. serde's primitive value deserializers
+/// forward `deserialize_newtype_struct` to `deserialize_any`, which a derived newtype struct
+/// (`struct Id(u32)`) rejects; the generic path hands such a visitor the element itself.
+#[cfg(target_endian = "little")]
+struct PrimitiveElem<D>(D);
+
+#[cfg(target_endian = "little")]
+impl<'de, D> de::Deserializer<'de> for PrimitiveElem<D>
+where
+    D: de::Deserializer<'de, Error = Error>,
+{
+    type Error = Error;
+    fn deserialize_any<V>(self, visitor: V) -> Result<V::Value>
+    where
+        V: Visitor<'de>,
+    {
+        self.0.deserialize_any(visitor)
+    }
+    fn deserialize_newtype_struct<V>(self, _name: &'static str, visitor: V) -> Result<V::Value>
+    where
+        V: Visitor<'de>,
+    {
+        visitor.visit_newtype_struct(self)
+    }
+    fn is_human_readable(&self) -> bool {
+        false
+    }
+    serde::forward_to_deserialize_any! {
+        bool i8 i16 i32 i64 i128 u8 u16 u32 u64 u128 f32 f64 char str string
+        bytes byte_buf option unit unit_struct seq tuple
+        tuple_struct map struct enum identifier ignored_any
     }
 }
 
